@@ -425,3 +425,221 @@ def restart_file_registered(ctx):
             and unparse(s.targets[0].value) == recv and isinstance(s.value, ast.Name) and s.value.id == fname]
     ctx.check(bool(sets) and bool(loads) and sets[0].lineno > loads[0].lineno, 'LoadSolver#_state', '<restored>._state = filename after the state transplant',
               'LoadSolver does not register the restart file on the restored solver', h, sets[0] if sets else h.node)
+
+
+def _settings_local(f):
+    """the local that holds the settings dict: assigned from super()._process_inputs(kwds) and returned"""
+    for s in stmts_of(f.node):
+        if isinstance(s, ast.Assign) and len(s.targets) == 1 and isinstance(s.targets[0], ast.Name) and isinstance(s.value, ast.Call) \
+                and isinstance(s.value.func, ast.Attribute) and s.value.func.attr == '_process_inputs':
+            return s.targets[0].id, s
+    return None, None
+
+
+@rule('C06.g', min_instances=5)
+def sticky_settings_are_stored_merged(ctx):
+    """run settings given to Solve/Step travel with the checkpoint: in every solver's _process_inputs the attribute a setting is kept in (self.xtol, self.imax, self.radius, self.adaptive, self.strategy) is stored from the settings dict only after the caller's keywords were merged into it, on every path, and every setting seeded from an attribute is stored back"""
+    n = 0
+    for anchor in ('mystic.scipy_optimize:NelderMeadSimplexSolver._process_inputs', 'mystic.scipy_optimize:PowellDirectionalSolver._process_inputs',
+                   'mystic.differential_evolution:DifferentialEvolutionSolver._process_inputs', 'mystic.differential_evolution:DifferentialEvolutionSolver2._process_inputs'):
+        f = ctx.func(anchor)
+        sn = selfname_of(f)
+        params = [a.arg for a in f.node.args.args]
+        ctx.need(len(params) >= 2, '%s signature changed' % f.qualname)
+        kw = params[1]
+        sv, first = _settings_local(f)
+        ctx.need(sv, '%s: no local holds the inherited settings' % f.qualname)
+
+        def writes_settings(st):
+            for c in ast.walk(st):
+                if isinstance(c, ast.Call) and isinstance(c.func, ast.Attribute) and isinstance(c.func.value, ast.Name) and c.func.value.id == sv \
+                        and c.func.attr in ('update', 'setdefault', '__setitem__'):
+                    return True
+                if isinstance(c, ast.Subscript) and isinstance(c.ctx, ast.Store) and isinstance(c.value, ast.Name) and c.value.id == sv:
+                    return True
+            return False
+
+        def reads_kwds(st):
+            return any(isinstance(x, ast.Name) and x.id == kw and isinstance(x.ctx, ast.Load) for x in ast.walk(st))
+
+        def keys_seeded(st):
+            """{key: attribute} for settings.update({'k': self.a, ...}) / settings['k'] = self.a (value traced through plain locals)"""
+            out = {}
+            for c in ast.walk(st):
+                if isinstance(c, ast.Dict):
+                    for k, v in zip(c.keys, c.values):
+                        if isinstance(k, ast.Constant) and isinstance(k.value, str):
+                            out[k.value] = v
+            if isinstance(st, ast.Assign) and len(st.targets) == 1 and isinstance(st.targets[0], ast.Subscript) and isinstance(st.targets[0].slice, ast.Constant):
+                out[st.targets[0].slice.value] = st.value
+            return out
+
+        def keys_read(expr):
+            return [x.slice.value for x in ast.walk(expr) if isinstance(x, ast.Subscript) and isinstance(x.value, ast.Name) and x.value.id == sv
+                    and isinstance(x.ctx, ast.Load) and isinstance(x.slice, ast.Constant) and isinstance(x.slice.value, str)]
+
+        def rel(node):
+            if isinstance(node, ast.For):
+                return writes_settings(node)
+            if isinstance(node, (ast.Assign, ast.Expr, ast.AugAssign)):
+                if writes_settings(node):
+                    return True
+                if isinstance(node, ast.Assign) and any(isinstance(tg, ast.Attribute) and isinstance(tg.value, ast.Name) and tg.value.id == sn for tg in node.targets):
+                    return True
+            return isinstance(node, ast.Return)
+        paths = [p for p in enumerate_paths(f.node, relevant=rel, unroll=(1,)) if p.exit == 'return']
+        ctx.need(paths, '%s: no path returns' % f.qualname)
+        ctx.stats['paths_enumerated'] += len(paths)
+        seeded_all = {}
+        for p in paths:
+            state = {}          # key -> 'seeded' | 'merged'
+            kept = set()        # keys whose merged value was stored on the instance
+            loop_merge = set()
+            for e in p.events:
+                if e[0] == 'iter' and isinstance(e[1], ast.For) and writes_settings(e[1]) and reads_kwds(e[1]):
+                    for k in state:
+                        state[k] = 'merged'
+                    continue
+                if e[0] != 'stmt':
+                    continue
+                st = e[1]
+                if writes_settings(st):
+                    if reads_kwds(st):
+                        for k in state:
+                            state[k] = 'merged'
+                    else:
+                        for k, v in keys_seeded(st).items():
+                            state[k] = 'seeded'
+                            seeded_all.setdefault(k, v)
+                    continue
+                if isinstance(st, ast.Assign):
+                    for tg in st.targets:
+                        if isinstance(tg, ast.Attribute) and isinstance(tg.value, ast.Name) and tg.value.id == sn:
+                            for k in keys_read(st.value):
+                                n += 1
+                                kept.add(k)
+                                ctx.check(state.get(k) != 'seeded', '%s#%s' % (f.qualname, tg.attr),
+                                          'self.%s is stored from settings[%r] after the caller\'s keywords were merged' % (tg.attr, k),
+                                          'self.%s is stored from settings[%r] before the caller\'s keywords are merged into it (path %s): a value given to Solve is used for this run but not kept, so a restored solver continues with the old one'
+                                          % (tg.attr, k, p.describe(4)), f, st)
+            for k in state:
+                if state[k] == 'seeded':
+                    ctx.bad('%s#%s' % (f.qualname, k), 'the settings returned on path %s never receive the caller\'s %r' % (p.describe(4), k), f, first)
+                elif k not in kept and k in seeded_all and any(isinstance(x, ast.Attribute) and isinstance(x.value, ast.Name) and x.value.id == sn
+                                                                for x in ast.walk(seeded_all[k])):
+                    # seeded from an attribute of the solver, merged, but never stored back
+                    ctx.bad('%s#%s' % (f.qualname, k), 'settings[%r] is seeded from the solver and merged with the caller\'s keywords but never stored back (path %s): not kept across a checkpoint'
+                            % (k, p.describe(4)), f, first)
+    ctx.need(n >= 5, 'expected >= 5 sticky stores read from the settings dict, found %d' % n)
+
+
+@rule('C06.h', min_instances=2)
+def forced_dump_is_unconditional(ctx):
+    """the dump requested when the solver stops is always taken: in __save_state every path feasible with force=True and a registered file calls self.SaveSolver(); in Step every path that logs the STOP record requests the forced dump afterwards (the periodic dump inside _Step precedes Finalize, so it does not describe the stopped solver)"""
+    from .. import pathcond as PC
+    import itertools
+    f = ctx.func(AS + '.__save_state')
+    sn = selfname_of(f)
+    params = [a.arg for a in f.node.args.args]
+    ctx.need('force' in params, '__save_state has no force parameter')
+    S = ('name', sn)
+    STATE = ('attr', S, '_state')
+
+    def fixed(atom):
+        """the truth value the assumption (force=True, a registered file) gives this atom, or None"""
+        if atom == ('name', 'force'):
+            return True
+        core = atom
+        if core[0] == 'call' and T.show(core[1]) == 'bool' and len(core[2]) == 1:
+            core = core[2][0]
+        if core == STATE:
+            return True
+        if core[0] == 'cmp' and core[1] in ('is', '==') and core[2] == STATE and core[3] == ('const', None):
+            return False
+        if core[0] == 'cmp' and core[1] in ('isnot', '!=') and core[2] == STATE and core[3] == ('const', None):
+            return True
+        return None
+
+    def rel(n):
+        return isinstance(n, ast.Call) and self_call(n, 'SaveSolver', sn)
+    names = backward_slice(f.node, set(x.id for n in walk_no_nested(f.node) if isinstance(n, (ast.If, ast.While)) for x in ast.walk(n.test) if isinstance(x, ast.Name)))
+
+    def rel2(n):
+        if isinstance(n, (ast.Assign, ast.AugAssign)):
+            return bool(set(assigned_names(n)) & names)
+        return rel(n)
+    paths = [p for p in enumerate_paths(f.node, relevant=rel2, unroll=(0, 1)) if p.exit != 'raise']
+    ctx.need(paths, '__save_state has no returning path')
+    ctx.stats['paths_enumerated'] += len(paths)
+    bad = None
+    n_forced = 0
+    for p in paths:
+        b = T.Builder()
+        fs = []
+        saved = False
+        for e in p.events:
+            if e[0] == 'cond':
+                c = T.simp(b.t(e[1]))
+                fs.append(c if e[2] else ('not', c))
+            elif e[0] == 'stmt':
+                if calls_where(e[1], rel, include_lambda=False):
+                    saved = True
+                elif isinstance(e[1], (ast.Assign, ast.AugAssign)):
+                    b.exec_stmt(e[1])
+        atoms = []
+        for f_ in fs:
+            for a in PC.leaves(f_):
+                if a not in atoms:
+                    atoms.append(a)
+        if len(atoms) > 14:
+            raise AnalysisError('__save_state: too many atoms on a path')
+        free = [a for a in atoms if fixed(a) is None]
+        feasible = False
+        for bits in itertools.product((False, True), repeat=len(free)):
+            val = dict(zip(free, bits))
+            for a in atoms:
+                if a not in val:
+                    val[a] = fixed(a)
+            if all(PC.ev(f_, val) for f_ in fs):
+                feasible = True
+                break
+        if not feasible:
+            continue
+        n_forced += 1
+        if not saved:
+            bad = p
+    ctx.need(n_forced >= 1, '__save_state: no path is feasible for a forced dump')
+    ctx.check(bad is None, 'AbstractSolver.__save_state#forced', 'force=True with a registered file always reaches self.SaveSolver() (%d feasible paths)' % n_forced,
+              'a forced dump (force=True, file registered) can return without self.SaveSolver() on path %s: the restart file then holds the state before Finalize, not the stopped solver'
+              % (bad.describe(5) if bad else ''), f, f.node)
+    # Step: the STOP record is followed by the forced dump
+    g = ctx.func(AS + '.Step')
+    sg = selfname_of(g)
+
+    def is_stop_log(c):
+        return isinstance(c, ast.Call) and isinstance(c.func, ast.Attribute) and c.func.attr == 'info' and 'STOP' in unparse(c)
+
+    def is_forced(c):
+        if not (isinstance(c, ast.Call) and isinstance(c.func, ast.Attribute) and c.func.attr in ('_AbstractSolver__save_state', '__save_state')
+                and isinstance(c.func.value, ast.Name) and c.func.value.id == sg):
+            return False
+        v = kwarg(c, 'force', 0)
+        return v is not None and const_value(v) is True
+    gp = [p for p in enumerate_paths(g.node, relevant=lambda n: is_stop_log(n) or is_forced(n), unroll=(0, 1)) if p.exit != 'raise']
+    ctx.stats['paths_enumerated'] += len(gp)
+    n_stop, badp = 0, None
+    for p in gp:
+        seq = []
+        for e in p.events:
+            if e[0] == 'stmt':
+                if calls_where(e[1], is_stop_log, include_lambda=False):
+                    seq.append('stop')
+                if calls_where(e[1], is_forced, include_lambda=False):
+                    seq.append('dump')
+        if 'stop' in seq:
+            n_stop += 1
+            if 'dump' not in seq[seq.index('stop'):]:
+                badp = p
+    ctx.need(n_stop >= 1, 'Step never logs a STOP record')
+    ctx.check(badp is None, 'AbstractSolver.Step#forced-dump', 'every path that logs STOP then calls self.__save_state(force=True) (%d paths)' % n_stop,
+              'Step logs the STOP record without requesting the forced dump afterwards (path %s)' % (badp.describe(5) if badp else ''), g, g.node)
